@@ -5,6 +5,7 @@ from spec.jsonrpc import id_ok, valid_error_obj, valid_request_obj, valid_respon
 
 from pjrpc.common.common import UNSET
 from pjrpc.common.v20 import Request, Response
+from pjrpc.common.exceptions import JsonRpcError, JsonRpcErrorMeta
 
 
 @contract('pjrpc.common.v20:Request.from_json', props=['C06', 'C05', 'C01'])
@@ -25,4 +26,39 @@ class RequestFromJson:
             same(result._method, member(json_data, 'method'))
             and (same(result._id, i) if not is_absent(i) else result._id is None)
             and (same(result._params, p) if not is_absent(p) else (isinstance(result._params, list) and len(result._params) == 0))
+        )
+
+
+@contract('pjrpc.common.v20:Response.from_json', props=['C06', 'C05', 'C08'])
+class ResponseFromJson:
+    types = {'json_data': 'json', 'error_cls': 'type<=pjrpc.common.exceptions:JsonRpcError'}
+    pins = {'cls': 'pjrpc.common.v20:Response'}
+    raises_only = ('pjrpc.common.exceptions:DeserializationError',)
+    result_type = '=pjrpc.common.v20:Response'
+
+    def returns_iff(cls, json_data, error_cls):
+        return valid_response_obj(json_data)
+
+    def ensures_fields(cls, json_data, error_cls, result):
+        i = member(json_data, 'id')
+        r = member(json_data, 'result')
+        e = member(json_data, 'error')
+        return (
+            (same(result._id, i) if not is_absent(i) else result._id is None)
+            and (same(result._result, r) if not is_absent(r) else result._result is UNSET)
+            and (result._error is UNSET) == is_absent(e)
+            and result._related is None
+        )
+
+    def ensures_error(cls, json_data, error_cls, result):
+        e = member(json_data, 'error')
+        if is_absent(e):
+            return True
+        d = member(e, 'data')
+        return (
+            isinstance(result._error, JsonRpcError)
+            and same(result._error.code, member(e, 'code'))
+            and same(result._error.message, member(e, 'message'))
+            and (same(result._error.data, d) if not is_absent(d) else result._error.data is UNSET)
+            and class_is(result._error, JsonRpcErrorMeta.__errors_mapping__.get(member(e, 'code'), error_cls))
         )
